@@ -240,9 +240,30 @@ def plan_c05(tier, seed):
     jobs.append(with_delay_fallback(wf("C05", "g2", 1, 1, 1, "cmd", oracles=["nohang", "c05"], events_dep=True, tier=tier, extra="absout", xdev="abs", id="C05-g2-absout-other-device")))
     jobs.append(with_delay_fallback(wf("C05", "g3", 1, 1, 2, "cmd", oracles=["nohang", "c05"], events_dep=True, tier=tier, extra="absout", xdev="abs", id="C05-g3-absout-other-device")))
     jobs.extend(mem_jobs("C05", o, tier, [("g5", 1, 2), ("g10b", 1, 2)] if tier == "quick" else [("g5", 1, 2), ("g10b", 1, 2), ("g4", 1, 2), ("g11", 2, 2), ("g9", 1, 2)], events_dep=True))
+    # streaming outputs (real FIFOs, see C17): first run, then the run again in place - when Run returns no FIFO / temp dir is left
+    def stream_first(ctx, prev):
+        j = {"id": "C05-stream-mixed-first", "prop": "C05", "kind": "stream", "mode": "delay", "delay": 0, "budget": budget(tier, 20, 120), "oracles": [], "events_dep": False, "force_all": -1,
+             "args": {"n": "1", "size": "1", "max": "2", "mixed": "1", "only_classes": "fifo-left,tempdir-left"}}
+        j["save_final"] = os.path.join(ctx["scratch"], "final", j["id"])
+        j["_stream_first"] = True
+        return [j]
+    def stream_again(ctx, prev):
+        jobs = []
+        for r in prev:
+            j = r["job"]
+            if j.get("_stream_first") and not r.get("error") and os.path.isdir(j["save_final"]):
+                nj = copy.deepcopy(j)
+                for k in ("base", "_stream_first", "save_final"):
+                    nj.pop(k, None)
+                nj["id"] = "C05-stream-mixed-rerun"
+                nj["seed_dir"] = j["save_final"]
+                nj["args"]["rerun"] = "1"
+                nj["delay"] = 1
+                jobs.append(nj)
+        return jobs
     iof = opfault_stages("C05", ["nohang", "c05", "c04"], tier, [("g3", 1, 1, "cmd", ""), ("g3", 1, 1, "func", ""), ("g7", 1, 1, "cmd", ""), ("g2", 1, 1, "cmd", "subdir"), ("g11", 1, 1, "cmd", "")] + ([] if tier == "quick" else [("g4", 1, 2, "cmd", ""), ("g14a", 1, 1, "cmd", ""), ("g8", 1, 1, "func", "")]))
-    return {"level": "model_checking", "native": True, "race_too": True, "stages": [lambda ctx, prev: jobs] + iof,
-            "rule": "every Mazurkiewicz trace of each scenario with start/end/return events mutually dependent (every order not forced by happens-before); at the state where the main thread returns from Run: all started tasks ended, all reference outputs final, no temp dir / FIFO; no deadlock state; + a rename that fails with EXDEV (absolute destination on another device): stopping is fine, returning is not; single injected I/O error: the n-th file-system operation of the run fails with EIO, for every n (default schedule; thorough: + 1 delay) - stop, or return with everything in place; memory-level pass: some scenarios again on the race-instrumented build, where map operations and accesses to mutable struct fields are scheduling points too",
+    return {"level": "model_checking", "native": True, "race_too": True, "stages": [lambda ctx, prev: jobs] + iof + [stream_first, stream_again],
+            "rule": "every Mazurkiewicz trace of each scenario with start/end/return events mutually dependent (every order not forced by happens-before); at the state where the main thread returns from Run: all started tasks ended, all reference outputs final, no temp dir / FIFO; no deadlock state; + a rename that fails with EXDEV (absolute destination on another device): stopping is fine, returning is not; single injected I/O error: the n-th file-system operation of the run fails with EIO, for every n (default schedule; thorough: + 1 delay) - stop, or return with everything in place; streaming producer with an ordinary second output: run, then run again in place - no FIFO / temp dir left when Run returns; memory-level pass: some scenarios again on the race-instrumented build, where map operations and accesses to mutable struct fields are scheduling points too",
             "assumptions": BASE_ASSUMPTIONS}
 
 
